@@ -1,6 +1,7 @@
 import CoupeModel.Model.Rcb
 import CoupeModel.Proofs.Rcb
 import CoupeModel.Proofs.RcbBalance
+import CoupeModel.Proofs.RcbTree
 
 /-!
 # C04 — each Rcb/Rib bisection is within tolerance or adjacent to the weighted median
@@ -90,7 +91,8 @@ non-negative weights, given the true weight of its items (`sum = sumW items`).  
 `_partial` with respect to C04 in two ways, both stated: (1) exact arithmetic – on `f32`
 the hypothesis "a smaller rounded distance means a smaller coordinate" fails, which is
 defect K2; (2) the premise `Resolved` excludes exactly the early exits K1a/K1b/K1c.
-The composition over the recursion tree (`rcb_balanced_statement`) is stated, not proved. -/
+They are composed over the recursion tree in the last section (`rcb_recursion_invariant`,
+`rcb_balanced_partial`, `rcb_balanced`). -/
 
 /-- `split_invariant`: started from an interval that brackets the half
 (`2·L(min) ≤ W ≤ 2·L≤(max)`, true of the node's bounding box), the search keeps
@@ -164,9 +166,10 @@ theorem jinv_of_box (coord : Nat) (items : List (Item Int)) (hw : ∀ x ∈ item
       sumW_filter_total items _ (by intro x hx; have := hbox x hx; simp; omega)
     omega
 
-/-- The tree-level composition of `split_balanced_partial` (every node's `sum` is its true
-weight by `split_reported_weight_partial`, every node's box contains its points, hence
-`Jinv`): NOT proved – the theorems above are per node. -/
+/-- A tree-level composition in the vocabulary of `verdicts` (proved below: `rcb_balanced`).
+Its premise mentions `nodeOk` itself for the non-tolerance exits, so its content is "the
+tolerance exits are within tolerance of the TRUE weights"; the per-node composition with
+the premise `Resolved` is `rcb_balanced_partial`. -/
 def rcb_balanced_statement : Prop :=
   ∀ (wt : Int → Int → Bool) (cfg : Cfg) (iter : Nat) (pts : List (List Int)) (ws : List Int)
     (t : Tree (NodeInfo Int)),
@@ -192,6 +195,112 @@ example : judge (α := Int) tolZero ⟨2, 100⟩ 2
     [[0, 0], [1, 1], [2, 2], [3, 3], [4, 0], [5, 1], [6, 2], [7, 3]] [1, 1, 1, 1, 1, 1, 1, 1] =
     some [(.tolerance, true), (.tolerance, true), (.tolerance, true)] := by decide +kernel
 
+/-! ## The composition over the recursion tree -/
+
+/-- `recurseT`/`runTreeT` (Proofs/RcbTree.lean) is `recurse`/`runTree` recording, per node,
+also the last interval of the search (the data of the premise `Resolved`).  Forgetting these
+ghost fields gives the tree of the recursion the driver executes – on every input, for
+every coordinate type, failures included. -/
+theorem runTreeT_erases (wt : Int → Int → Bool) (cfg : Cfg) (iter : Nat) (pts : List (List α))
+    (ws : List Int) (lo hi : List α) :
+    Res.map (Tree.map NodeTrace.info) (runTreeT wt cfg iter pts ws lo hi) =
+      runTree wt cfg iter pts ws lo hi :=
+  runTreeT_erase wt cfg iter pts ws lo hi
+
+/-- **The invariant of `rcb_recurse`** (exact arithmetic, weights ≥ 0, `D ≥ 1`, the box of
+`rcb`): at EVERY bisection node, whichever exit its search took,
+(i) the `sum` the node was handed is the true weight of its points and the reported
+`weight_left` is the true weight of its low side (so the child's `sum` is true again);
+(ii) the interval the search starts from – the inherited bounding box, clipped at the
+ancestors' `split_pos` – contains the node's points, and the two sides lie on their sides
+of the node's `split_pos` (so the clipped boxes contain the children's points);
+(iii) the points of the node are the leaves below it (`Tree.members`, the tree of C03), and
+the root holds all points. -/
+theorem rcb_recursion_invariant (wt : Int → Int → Bool) (cfg : Cfg) (iter : Nat)
+    (pts : List (List Int)) (ws : List Int) (t : Tree (NodeInfo Int))
+    (hdim : 0 < cfg.dim) (hw : ∀ w ∈ ws, 0 ≤ w) (hlen : ws.length = pts.length)
+    (h : runTree wt cfg iter pts ws (bbox cfg.dim pts).1 (bbox cfg.dim pts).2 = .ok t) :
+    ∃ tt : Tree (NodeTrace Int),
+      runTreeT wt cfg iter pts ws (bbox cfg.dim pts).1 (bbox cfg.dim pts).2 = .ok tt ∧
+      tt.map NodeTrace.info = t ∧ tt.members.Perm (List.range pts.length) ∧
+      tt.AllNodes (fun tr lo hi =>
+        tr.info.sum = wOf ws (lo.members ++ hi.members) ∧
+        tr.info.weightLeft = wOf ws lo.members ∧
+        (∀ i ∈ lo.members ++ hi.members,
+          tr.info.min ≤ ptKey pts i tr.info.coord ∧ ptKey pts i tr.info.coord ≤ tr.info.max) ∧
+        (∀ i ∈ lo.members, ptKey pts i tr.info.coord ≤ tr.info.splitPos) ∧
+        (∀ j ∈ hi.members, tr.info.splitPos ≤ ptKey pts j tr.info.coord)) := by
+  obtain ⟨tt, hT, he⟩ := runTree_has_trace wt cfg iter pts ws _ _ t h
+  obtain ⟨hp, hA⟩ := runTreeT_facts wt cfg iter pts ws tt hdim hw hlen hT
+  exact ⟨tt, hT, he, hp, hA.imp (fun _ _ _ ⟨h1, h2, h3, h4, h5, _⟩ => ⟨h1, h2, h3, h4, h5⟩)⟩
+
+/-- **C04 along the whole recursion, per node, under the premise of
+`split_balanced_partial`.**  For every input (integer coordinates, weights ≥ 0, `D ≥ 1`) on
+which `rcb` returns, and EVERY bisection node of its tree: if the node's search left
+through the tolerance test, or with a resolved final interval (`NodePremise`: the members
+whose coordinate lies in the last `[min, max)` carry at most one distinct value), then the
+node satisfies C04's clause `nodeOk` – computed from the input points, the input weights
+and the member lists only: the true low-side weight passes the tolerance test against the
+true node weight, or is an achievable cut weight adjacent to the half.
+`_partial`: exact arithmetic only (K2), and the premise excludes the early exits K1a/b/c. -/
+theorem rcb_balanced_partial (wt : Int → Int → Bool) (cfg : Cfg) (iter : Nat)
+    (pts : List (List Int)) (ws : List Int) (t : Tree (NodeInfo Int))
+    (hdim : 0 < cfg.dim) (hw : ∀ w ∈ ws, 0 ≤ w) (hlen : ws.length = pts.length)
+    (h : runTree wt cfg iter pts ws (bbox cfg.dim pts).1 (bbox cfg.dim pts).2 = .ok t) :
+    ∃ tt : Tree (NodeTrace Int),
+      runTreeT wt cfg iter pts ws (bbox cfg.dim pts).1 (bbox cfg.dim pts).2 = .ok tt ∧
+      tt.map NodeTrace.info = t ∧
+      tt.AllNodes (fun tr lo hi =>
+        NodePremise pts tr lo hi → nodeOk wt pts ws tr.info.coord lo.members hi.members = true) := by
+  obtain ⟨tt, hT, he⟩ := runTree_has_trace wt cfg iter pts ws _ _ t h
+  obtain ⟨_, hA⟩ := runTreeT_facts wt cfg iter pts ws tt hdim hw hlen hT
+  exact ⟨tt, hT, he, hA.imp (fun _ _ _ hf => hf.2.2.2.2.2)⟩
+
+/-- Corollary in the vocabulary of `C04_statement`: if every node of the run meets the
+premise, the tree is `balanced`. -/
+theorem rcb_balanced_of_premise_partial (wt : Int → Int → Bool) (cfg : Cfg) (iter : Nat)
+    (pts : List (List Int)) (ws : List Int) (tt : Tree (NodeTrace Int))
+    (hdim : 0 < cfg.dim) (hw : ∀ w ∈ ws, 0 ≤ w) (hlen : ws.length = pts.length)
+    (h : runTreeT wt cfg iter pts ws (bbox cfg.dim pts).1 (bbox cfg.dim pts).2 = .ok tt)
+    (hprem : tt.AllNodes (fun tr lo hi => NodePremise pts tr lo hi)) :
+    runTree wt cfg iter pts ws (bbox cfg.dim pts).1 (bbox cfg.dim pts).2 =
+        .ok (tt.map NodeTrace.info) ∧
+      balanced wt pts ws (tt.map NodeTrace.info) = true := by
+  refine ⟨?_, ?_⟩
+  · rw [← runTreeT_erase, h]; rfl
+  · obtain ⟨_, hA⟩ := runTreeT_facts wt cfg iter pts ws tt hdim hw hlen h
+    rw [balanced_map_iff]
+    exact (hA.and hprem).imp (fun _ _ _ ⟨hf, hp⟩ => hf.2.2.2.2.2 hp)
+
+/-- `rcb_balanced_statement` holds (every `D`, every box would do): the nodes that leave
+through the tolerance test are within tolerance of their TRUE weights. -/
+theorem rcb_balanced : rcb_balanced_statement := by
+  intro wt cfg iter pts ws t hw hlen h hv
+  obtain ⟨tt, hT, rfl⟩ := runTree_has_trace wt cfg iter pts ws _ _ t h
+  obtain ⟨_, hA⟩ := runTreeT_sums wt cfg iter pts ws _ _ tt hw hlen hT
+  rw [verdicts_all_iff wt pts ws (fun v => v.1 = .tolerance ∨ v.2 = true)] at hv
+  rw [balanced_map_iff]
+  refine (hA.and hv).imp (fun _ _ _ ⟨hs, hp⟩ => ?_)
+  rcases hp with he | hok
+  · exact hs.2.2 he
+  · exact hok
+
+/-- Non-vacuity of `rcb_balanced_partial`: 7 weighted points, 3 levels, 7 bisections
+(pre-order: exit, premise met?, `nodeOk`?).  Five nodes meet the premise – one through the
+tolerance test, four through a resolved interval on the plateau / no-point-to-max exits –
+and are balanced; the two that do not meet it happen to be balanced too. -/
+example : judgeT tolZero ⟨2, 100⟩ 3
+    [[0, 5], [10, 1], [20, 7], [30, 3], [40, 0], [50, 9], [60, 2]] [1, 1, 5, 1, 1, 2, 2] =
+    some [(.noPointToMax, true, true), (.plateau, true, true), (.tolerance, true, true),
+          (.plateau, true, true), (.noPointToMax, false, true), (.noPointToMax, false, true),
+          (.plateau, true, true)] := by decide +kernel
+
+/-- … and on K1c's input the premise fails exactly at the two unbalanced nodes. -/
+example : judgeT tolZero ⟨2, 100⟩ 3
+    [[0, 0], [1, 0], [2, 0], [100, 0], [101, 0], [102, 0]] [1, 1, 1, 1, 1, 1] =
+    some [(.tolerance, true, true), (.noPointToMax, true, true), (.allLeft, false, false),
+          (.noPointToMax, true, true), (.plateau, false, false)] := by decide +kernel
+
 end Coupe.Rcb
 
 #print axioms Coupe.Rcb.split_exit_tol
@@ -204,3 +313,8 @@ end Coupe.Rcb
 #print axioms Coupe.Rcb.heavy_left_counterexample
 #print axioms Coupe.Rcb.all_left_counterexample
 #print axioms Coupe.Rcb.C04_statement_false
+#print axioms Coupe.Rcb.runTreeT_erases
+#print axioms Coupe.Rcb.rcb_recursion_invariant
+#print axioms Coupe.Rcb.rcb_balanced_partial
+#print axioms Coupe.Rcb.rcb_balanced_of_premise_partial
+#print axioms Coupe.Rcb.rcb_balanced
